@@ -197,7 +197,7 @@ def erase(ty):
     if isinstance(ty, tuple) and ty[0] == "opt":
         return ("opt", erase(ty[1]))
     if isinstance(ty, tuple) and ty[0] == "tuple":
-        return ("tuple", [erase(t) for t in ty[1]])
+        return ("tuple", tuple(erase(t) for t in ty[1]))
     return ty
 
 
@@ -540,16 +540,13 @@ class Translator:
                                                  pr(info.comp, not info.pure))
 
     def self_type(self, ix, owner):
-        for x in self.all_idx(ix):
+        for x in self.all_idx(ix):          # the file of the function first: names repeat across files
             if owner in x.newtypes:
                 return ("nt", owner, x.newtypes[owner])
-        for x in self.all_idx(ix):
-            if owner in x.records:
-                return ("rec", owner, x.records[owner])
-        for x in self.all_idx(ix):
             if owner in x.tuples:
                 return ("tup", owner, x.tuples[owner][1])
-        for x in self.all_idx(ix):
+            if owner in x.records:
+                return ("rec", owner, x.records[owner])
             if owner in x.enums:
                 return ("enum", owner)
         raise Untranslatable("self of type %s" % owner)
